@@ -180,3 +180,5 @@ func Debugf(f string, a ...any) {
 		fmt.Fprintf(os.Stderr, "DEBUG "+f+"\n", a...)
 	}
 }
+
+func grogCfgWorkers(n int) grog.Config { return grog.Config{NumWorkers: n} }
